@@ -172,6 +172,14 @@ def impl_layout(case):
     try:
         with quiet():
             sp = hvsrpy.HvsrSpatial(co)
+            try:
+                # the object is used for another boundary first (an enlarged copy: usually the same sensors are retained); what it returns
+                # for `bd` afterwards must not depend on that
+                cen = bd.mean(axis=0)
+                sp.spatial_weights(cen + (bd - cen) * 1.37)
+                sp.bounded_voronoi(cen + (bd - cen) * 1.37)
+            except Exception:  # noqa
+                pass
             w, idx = sp.spatial_weights(bd)
             regions, idx2 = sp.bounded_voronoi(bd)
         return dict(weights=[float(x) for x in w], indices=[int(i) for i in idx], indices2=[int(i) for i in idx2],
@@ -457,7 +465,7 @@ def ensure_driver():
 def run(ctx):
     ctx.rule = ("layouts = (boundary point set, 4-12 sensors strictly inside its convex hull in general position, 0-3 outside; "
                 "'tie' stream: dyadic boundary with sensors exactly on a boundary vertex / edge midpoint); each layout is run "
-                "as given (extent 1e-2..1e4) and as a permuted, a translated (offset <= 1e4 x extent) and a uniformly scaled copy; "
+                "as given (extent 1e-2..1e4) and as a permuted, a translated (offset <= 2e5 x extent, i.e. UTM-sized coordinates of a small site) and a uniformly scaled copy; "
                 "non-trivial = at least one sensor culled or at least one unbounded Voronoi cell clipped by the hull; "
                 "Monte-Carlo cases = (4 generator/spatial pairs) x (1-8 generators, 1-200 realisations, generic/zero/mixed sigma, "
                 "weights random or the Voronoi weights of a layout); distinct by input hash")
@@ -499,7 +507,7 @@ def run(ctx):
         b0 = transform(base, scale=ext, shift=sh)
         n = len(b0["coords"])
         perm = rng.permutation(n)
-        tmag = float(rng.choice([1.0, 1e2, 1e4]))
+        tmag = float(rng.choice([1.0, 1e2, 1e4, 2e5]))      # 2e5 x extent: a 30 m site in UTM coordinates
         if kind == "tie":
             t = (np.round(rng.uniform(-1, 1, 2) * 8) * ext * float(rng.choice([1.0, 16.0, 1024.0]))).tolist()
             sc = float(rng.choice([0.5, 4.0, 8.0, 1 / 64]))      # extent stays <= 8192
